@@ -25,6 +25,7 @@ MODELS_C12 = [
     "m16_two_parking_writers_one_credit_vs_grant",
     "m17_two_parking_writers_one_credit_vs_close",
     "m22_two_writers_no_credit",
+    "m24_drop_notification_vs_handle_release",
     "m18_parked_writer_vs_local_shutdown",
     "m19_bridge_waits_for_credit_vs_acknowledge",
     "m20_bridge_waits_for_credit_vs_close",
@@ -40,7 +41,7 @@ DEEP_BOUNDS = {
 }
 MODELS_C07 = ["m7_concurrent_flow_id_allocation"]
 # an abort must reach a writer parked on credit (part of C06's decision: sub-poll interleavings)
-MODELS_C06 = ["m2_writer_vs_close", "m6_writer_with_credit_vs_close", "m9_writer_vs_acknowledge_then_close"]
+MODELS_C06 = ["m2_writer_vs_close", "m6_writer_with_credit_vs_close", "m9_writer_vs_acknowledge_then_close", "m24_drop_notification_vs_handle_release"]
 # every write completes: a writer parked on credit is woken by every grant (part of C04's decision: sub-poll interleavings)
 MODELS_C04 = ["m1_writer_vs_acknowledge", "m3_two_writes_vs_acknowledge", "m8_three_writes_two_acknowledges", "m11_writer_vs_two_granting_threads", "m19_bridge_waits_for_credit_vs_acknowledge"]
 # the bridge parked on credit is woken by a grant and by a close (part of C13's decision: sub-poll interleavings)
